@@ -166,6 +166,28 @@ def _rotate(same_second, runs=3):
     return None
 
 
+def c17_template(template="{name}-{ts:%Y%m%dT%H}.records", minutes=((22, 10), (22, 20))):
+    """one writer on an empty directory: every record is in the file its template names, nothing is renamed"""
+    from flow.record import PathTemplateWriter, RecordReader
+
+    D = _desc()
+    with tempfile.TemporaryDirectory() as td:
+        w = PathTemplateWriter(os.path.join(td, template), name="t")
+        expected = {}
+        for j, (hh, mm) in enumerate(minutes):
+            g = datetime.datetime(2017, 12, 6, hh, mm, tzinfo=UTC)
+            w.write(D(n=j, s=f"r{j}", _generated=g))
+            expected.setdefault(os.path.join(td, template).format(name="t", record=None, ts=g), []).append(f"r{j}")
+        w.close()
+        found = {}
+        for root, _, files in os.walk(td):
+            for f in files:
+                with RecordReader(os.path.join(root, f)) as rd:
+                    found[os.path.join(root, f)] = [r.s for r in rd]
+    bad = None if found == expected else f"files on disk { {os.path.relpath(k, td): v for k, v in found.items()} }, the template names { {os.path.relpath(k, td): v for k, v in expected.items()} }"
+    return {"violates": bool(bad), "detail": bad}
+
+
 def c17_rotate(same_second=True):
     try:
         bad = _rotate(same_second)
@@ -220,4 +242,4 @@ def c17_sweep(seed=0, n=60):
     return {"violates": False, "cases": cases}
 
 
-CALLS = {"c17_history": c17_history, "c17_split": c17_split, "c17_rotate": c17_rotate, "c17_sweep": c17_sweep}
+CALLS = {"c17_template": c17_template, "c17_history": c17_history, "c17_split": c17_split, "c17_rotate": c17_rotate, "c17_sweep": c17_sweep}
